@@ -85,7 +85,8 @@ def step (s : St) (ws : List String) : St × String :=
       ({ s with target := some t, sync := some sy }, out)
     | none => (s, "bad-op")
   | "resp" :: mn :: kind :: rest =>
-    match mn.toInt?, s.sync with
+    -- `<min>` = the value minTimestamp holds after this fetch, `=` = whatever the syncer stored
+    match (if mn == "=" then some none else mn.toInt?.map some), s.sync with
     | some mn, some sy =>
       let reqH := match sy.client with | some c => c.reqHeight | none => 0
       let resp? : Option Resp :=
@@ -97,12 +98,18 @@ def step (s : St) (ws : List String) : St × String :=
       match resp? with
       | none => (s, "bad-op")
       | some resp =>
-        let out := if s.failAt.isSome then "-" else
+        let out := if s.failAt.isSome then "-" else if sy.fwdDone then "closed" else
           match sy.client with
           | none => "closed"
           | some c => if c.isClosed true then "closed" else s!"req {c.reqHeight} {c.reqMin}"
-        let sy' := sy.step true s.parse s.failAt { newMin := mn, resp := resp }
+        let sy' := sy.step true s.parse s.failAt { newMin := sy.effMin mn, resp := resp }
         ({ s with sync := some sy' }, out)
+    | _, _ => (s, "bad-op")
+  | ["target", id] =>
+    match id.toNat? >>= s.block?, s.sync with
+    | some t, some sy =>
+      let sy' := sy.target s.W t
+      ({ s with sync := some sy', target := some t }, s!"done={sy'.done true}")
     | _, _ => (s, "bad-op")
   | ["end"] =>
     match s.sync with
